@@ -535,6 +535,9 @@ fn semantic_cases(lay: &Layout, deep: bool) -> Vec<DiagCase> {
             m.insert(4, "macro outer2(v) -> inc ax setb(v) dec ax <-");
             m.insert(5, "macro outer3(v) -> outer2(v) <-");
             m.insert(6, "macro off(a) -> <-");
+            // the undefined name stands in the BODY, not in an argument: the use line does not contain it
+            m.insert(7, "macro lost(r) -> inc r jmp nowhere <-");
+            m.insert(8, "macro lost2(r) -> lost(r) loop nowhere <-");
             m
         };
         for (class, line) in [
@@ -545,8 +548,10 @@ fn semantic_cases(lay: &Layout, deep: bool) -> Vec<DiagCase> {
             ("constant out of range", "outer2(300)"),
             ("constant out of range", "outer3(300)"),
             ("undefined label", "off(ax) goto(nowhere)"),
+            ("undefined label", "lost(ax)"),
+            ("undefined label", "lost2(bx)"),
         ] {
-            for pos in [8usize, 10, mbase.len()] {
+            for pos in [10usize, 12, mbase.len()] {
                 let mut lines: Vec<String> = mbase.iter().map(|s| s.to_string()).collect();
                 lines.insert(pos, line.to_string());
                 let (text, map) = lay_out(&lines, lay);
